@@ -1,10 +1,19 @@
 (* C01 -- one-shot compress/decompress is lossless for every input and level.
-   Proved so far: the level clause (values above 10 behave as 10), on the definition regenerated
-   from deflate/core.rs.  The round-trip clause is decided per explored run by the crate's decoder
-   and by the extracted specification (see DESIGN.md, C01). *)
-From Coq Require Import ZArith.
+   Proved: (a) the level clause (values above 10 behave as 10), on the definition regenerated from
+   deflate/core.rs; (b) the round trip at level 0 for EVERY input: whatever the model of
+   compress_to_vec_inner (model/DeflateCore.v, tied to the code by the per-run correspondence) returns
+   for a flag word with TDEFL_FORCE_ALL_RAW_BLOCKS is decoded by the RFC 1951 / RFC 1950 specification
+   to exactly the input, all of the output being consumed, and its length is n + 5(n/31745 + 1) (+ 6).
+   For levels 1..10 the round-trip clause is decided per explored run by the crate's decoder and by the
+   extracted specification (see DESIGN.md, C01): C01_level0_lossless_for_every_input is the _partial form
+   of the full statement (all levels), the Huffman/LZ engines being outside the model. *)
+From Coq Require Import ZArith NArith List.
+From MZ.lib Require Import Mach.
+From MZ.spec Require Import DeflateSpec.
 From MZ.gen Require Import GenZlib.
-From MZ.proofs Require Import DeflateFlags.
+From MZ.model Require Import DeflateCore.
+From MZ.proofs Require Import DeflateFlags StoredSpec StoredRoundtrip.
+Import ListNotations.
 Local Open Scope Z_scope.
 
 Theorem C01_levels_above_10_behave_as_10 :
@@ -15,3 +24,30 @@ Proof. exact flags_level_clamped. Qed.
 Example C01_level_255 :
   create_comp_flags_from_zip_params 255 1 0 = create_comp_flags_from_zip_params 10 1 0.
 Proof. reflexivity. Qed.
+
+Theorem C01_level0_lossless_for_every_input_partial :
+  forall (data : list N) (flags : N),
+  hasf flags FLAG_RAW = true -> bytes_ok data ->
+  forall out : list N,
+  compress_to_vec_inner data flags = Ret (VBytes out) ->
+  exists blocks,
+    (if hasf flags FLAG_ZLIB then zlib_spec true out else inflate_spec out)
+    = SDone data (N.of_nat (length out)) blocks /\
+    N.of_nat (length out)
+    = ((if hasf flags FLAG_ZLIB then 6 else 0) + N.of_nat (length data) + 5 * (N.of_nat (length data) / 31745 + 1))%N.
+Proof. exact level0_roundtrip. Qed.
+
+(* the flag words compress_to_vec(_, 0) and compress_to_vec_zlib(_, 0) pass down carry the raw-block flag *)
+Example C01_level0_flags_are_raw :
+  hasf (Z.to_N (fst (create_comp_flags_from_zip_params 0 0 0))) FLAG_RAW = true /\
+  hasf (Z.to_N (fst (create_comp_flags_from_zip_params 0 1 0))) FLAG_RAW = true /\
+  hasf (Z.to_N (fst (create_comp_flags_from_zip_params 0 1 0))) FLAG_ZLIB = true.
+Proof. repeat split; reflexivity. Qed.
+
+(* non-vacuity: the model does return a vector (here: 40000 bytes, two blocks, zlib), and the conclusion holds on it *)
+Example C01_level0_returns_a_vector :
+  match compress_to_vec_inner (repeat 7%N (N.to_nat 40000)) (Z.to_N (fst (create_comp_flags_from_zip_params 0 1 0))) with
+  | Ret (VBytes out) => N.of_nat (length out) = (6 + 40000 + 5 * 2)%N
+  | _ => False
+  end.
+Proof. vm_compute. reflexivity. Qed.
